@@ -148,6 +148,11 @@ def fixed_cart_cases():
     out.append(mk((1, 3, 2), [0], [-1, 0, 0, 1], full(2), 'duplicates'))
     # descending order
     out.append(mk((1, 3, 3), [0], full(3)[::-1], full(3), 'shuffled'))
+    # as many samples as grid points, ascending, but one grid point twice and another one never (not a permutation of the grid)
+    out.append(mk((1, 1, 8), [0], [0], [-4, -3, -2, -1, 0, 0, 1, 2], 'full_count_duplicate'))
+    out.append(mk((1, 4, 2), [0], [-2, -1, 0, 0], full(2), 'full_count_duplicate'))
+    out.append(mk((1, 1, 6), [0], [0], [0, 0, 0, 0, 0, 0], 'full_count_duplicate'))
+    out.append(mk((2, 3, 2), [-1, -1], full(3), full(2), 'full_count_duplicate'))
     return out
 
 
